@@ -349,10 +349,10 @@ class R:
         self.d = d or {}
         self.tag = tag
         if sh is None:
-            if c is not None:
-                sh = float(c)
-            elif tag is not None:
+            if tag is not None:
                 sh = {'nan': math.nan, 'inf': math.inf, '-inf': -math.inf}[tag]
+            elif c is not None:
+                sh = float(c)
         self.sh = sh
 
     # ---- constructors
